@@ -902,7 +902,66 @@ def plant(rng, u, kind):
             return None
         cands = [n for n in used_items if u.items[n]["kind"] in ("func", "value") and namesake(u.items[n]["outs"][0])]
         if not cands:
-            return None
+            # make the shape: a needed namesake in the other package of the same name
+            pm = u.prog.pkgmap
+            if pm["liba"]["name"] != pm["libb"]["name"] or getattr(u, "shadow", False) or \
+                    any(getattr(o, "twin_of", None) is u for o in u.prog.units):
+                return None
+            reach, todo = set(), [u.inj["out"]]
+            while todo:
+                t = todo.pop()
+                if t in reach or t not in u.src:
+                    continue
+                reach.add(t)
+                todo += u.items[u.src[t]]["deps"]
+            vict = [n for n in used_items if u.items[n]["kind"] in ("func", "value") and u.items[n]["outs"][0] in reach
+                    and u.items[n]["outs"][0] != u.inj["out"] and u.items[n]["outs"][0][0] in ("v", "p")
+                    and u.structs[u.items[n]["outs"][0][1]]["pkg"] in ("liba", "libb")]
+            # a provider function of the injector's package that is needed can take the namesake as a further argument
+            hosts = [c for c in u.items if c["kind"] == "func" and c.get("pkg") in ("app", "libb") and c["outs"][0] in reach
+                     and not c.get("variadic") and "ret_conc" not in c]
+            rng.shuffle(vict)
+            done = False
+            for n in vict:
+                k, i = u.items[n]["outs"][0]
+                st = u.structs[i]
+                other = {"liba": "libb", "libb": "liba"}[st["pkg"]]
+                hs = [c for c in hosts if pkg_level(c["pkg"]) >= pkg_level(other) and c is not u.items[n]]
+                if any(o["name"] == st["name"] and o["pkg"] == other for o in u.structs) or not hs:
+                    continue
+                j = len(u.structs)
+                u.structs.append({"name": st["name"], "pkg": other, "fields": [], "extra": [], "ptrrecv": False})
+                u.items.append({"kind": "value", "outs": [(k, j)], "deps": [], "pkg": other,
+                                "id": max(x["id"] for x in u.items) + 400})
+                u.src[(k, j)] = len(u.items) - 1
+                build["items"].append(len(u.items) - 1)
+                build.pop("order", None)
+                host = rng.choice(hs)
+                host["deps"].insert(rng.randint(0, len(host["deps"])), (k, j))
+                cands = [n]
+                done = True
+                break
+            hs = [c for c in hosts if c.get("pkg") == "app"] or [c for c in hosts if c.get("pkg") == "libb"]
+            if not done and hs:
+                # no suitable victim: two new types of one name, one in each of the same-named packages, both needed
+                nm = "Twin%d" % u.uid
+                host = rng.choice(hs)
+                k = rng.choice(["v", "p"])
+                new = []
+                for pk in (["liba", "libb"] if host["pkg"] == "app" else ["liba"]):
+                    j = len(u.structs)
+                    u.structs.append({"name": nm, "pkg": pk, "fields": [], "extra": [], "ptrrecv": False})
+                    u.items.append({"kind": "value", "outs": [(k, j)], "deps": [], "pkg": pk, "id": max(x["id"] for x in u.items) + 400})
+                    u.src[(k, j)] = len(u.items) - 1
+                    build["items"].append(len(u.items) - 1)
+                    host["deps"].insert(rng.randint(0, len(host["deps"])), (k, j))
+                    new.append(len(u.items) - 1)
+                if len(new) == 2:
+                    build.pop("order", None)
+                    cands = [rng.choice(new)]
+                    done = True
+            if not done:
+                return None
         n = rng.choice(cands)
         for s in u.sets:
             if n in s["items"]:
